@@ -13,6 +13,7 @@ CONSTANTS
   PertKinds <- K_All
   NumSyss <- N_Three
   RrefFlags <- FL_Plain
+  MaxEvals = 1
 INVARIANT TypeOK
 INVARIANT BackwardConstructionIsEquilibrium
 INVARIANT PerturbationBreaksOneClause
